@@ -29,6 +29,14 @@ func (s *MemoryStore) VerifSnapshot() []Envelope {
 	return out
 }
 
+// VerifOrder returns a copy of the scan list Dequeue walks (ids in insertion
+// order, including entries whose message is gone until the next compaction).
+func (s *MemoryStore) VerifOrder() []string {
+	s.mu.Lock()
+	defer s.mu.Unlock()
+	return append([]string(nil), s.order...)
+}
+
 // VerifSnapshot returns every stored row, including lease fields, without
 // triggering retention pruning or lease sweeps. Verification builds only.
 func (s *SQLiteStore) VerifSnapshot() ([]Envelope, error) {
